@@ -41,7 +41,7 @@ static void reparam_generic(opcase_t *c, rng_t *r) {
   } else if (!strcmp(f, "trsm") || !strcmp(f, "solve") || !strcmp(f, "kernel")) {
     c->ip[0] = cut;
   } else if (!strcmp(f, "inv")) {
-    if (!strcmp(n, "mzd_inv_m4ri")) c->ip[0] = rng_int(r, 0, 10);
+    if (!strcmp(n, "mzd_inv_m4ri")) c->ip[0] = rng_int(r, 0, 16);
   }
 }
 void ops_init(void) {
